@@ -43,6 +43,8 @@ impl MemoryStore {
     }
 
     fn get_cas_id(&self) -> u64 {
+        #[cfg(memcrs_verif)]
+        crate::verif_hooks::yield_point("atomic.fetch_add");
         self.cas_id.fetch_add(1, Ordering::Release)
     }
 }
@@ -62,6 +64,8 @@ impl MemoryStore {
 
 impl impl_details::CacheImplDetails for MemoryStore {
     fn get_by_key(&self, key: &KeyType) -> Result<Record> {
+        #[cfg(memcrs_verif)]
+        crate::verif_hooks::yield_point("map.get");
         match self.memory.get(key) {
             Some(record) => Ok(record.clone()),
             None => Err(CacheError::NotFound),
@@ -80,6 +84,8 @@ impl impl_details::CacheImplDetails for MemoryStore {
         }
         // collect the expired record only if it is still the one that was read:
         // a store that completed in the meantime must not be undone
+        #[cfg(memcrs_verif)]
+        crate::verif_hooks::yield_point("map.remove_if");
         self.memory.remove_if(key, |_key, stored| {
             stored.header.cas == record.header.cas
                 && stored.header.timestamp == record.header.timestamp
@@ -91,12 +97,16 @@ impl impl_details::CacheImplDetails for MemoryStore {
 impl Cache for MemoryStore {
     // Removes key value and returns as an option
     fn remove(&self, key: &KeyType) -> Option<(KeyType, Record)> {
+        #[cfg(memcrs_verif)]
+        crate::verif_hooks::yield_point("map.remove");
         self.memory.remove(key)
     }
 
     fn set(&self, key: KeyType, mut record: Record) -> Result<SetStatus> {
         //trace!("Set: {:?}", &record.header);
         if record.header.cas > 0 {
+            #[cfg(memcrs_verif)]
+            crate::verif_hooks::yield_point("map.get_mut");
             match self.memory.get_mut(&key) {
                 Some(mut key_value) => {
                     if key_value.header.cas != record.header.cas {
@@ -108,6 +118,8 @@ impl Cache for MemoryStore {
                         };
                         // keep the counter ahead of tokens derived from client values,
                         // so that it never hands out this one a second time
+                        #[cfg(memcrs_verif)]
+                        crate::verif_hooks::yield_point("atomic.fetch_max");
                         self.cas_id
                             .fetch_max(record.header.cas.wrapping_add(1), Ordering::Release);
                         record.header.timestamp = self.timer.timestamp();
@@ -121,10 +133,14 @@ impl Cache for MemoryStore {
                         Some(cas) => cas,
                         None => self.get_cas_id(),
                     };
+                    #[cfg(memcrs_verif)]
+                    crate::verif_hooks::yield_point("atomic.fetch_max");
                     self.cas_id
                         .fetch_max(record.header.cas.wrapping_add(1), Ordering::Release);
                     record.header.timestamp = self.timer.timestamp();
                     let cas = record.header.cas;
+                    #[cfg(memcrs_verif)]
+                    crate::verif_hooks::yield_point("map.insert");
                     self.memory.insert(key, record);
                     Ok(SetStatus { cas })
                 }
@@ -133,6 +149,8 @@ impl Cache for MemoryStore {
             let cas = self.get_cas_id();
             record.header.cas = cas;
             record.header.timestamp = self.timer.timestamp();
+            #[cfg(memcrs_verif)]
+            crate::verif_hooks::yield_point("map.insert");
             self.memory.insert(key, record);
             Ok(SetStatus { cas })
         }
@@ -140,6 +158,8 @@ impl Cache for MemoryStore {
 
     fn delete(&self, key: KeyType, header: CacheMetaData) -> Result<Record> {
         let mut cas_match: Option<bool> = None;
+        #[cfg(memcrs_verif)]
+        crate::verif_hooks::yield_point("map.remove_if");
         match self.memory.remove_if(&key, |_key, record| -> bool {
             let result = header.cas == 0 || record.header.cas == header.cas;
             cas_match = Some(result);
@@ -157,6 +177,8 @@ impl Cache for MemoryStore {
         if header.time_to_live > 0 {
             let now = self.timer.timestamp();
             let deadline = now + header.time_to_live as u64;
+            #[cfg(memcrs_verif)]
+            crate::verif_hooks::yield_point("map.alter_all");
             self.memory.alter_all(|_key, mut value| {
                 // a delayed flush may shorten an item's life, never prolong it
                 let ttl = value.header.time_to_live as u64;
@@ -167,6 +189,8 @@ impl Cache for MemoryStore {
                 value
             });
         } else {
+            #[cfg(memcrs_verif)]
+            crate::verif_hooks::yield_point("map.clear");
             self.memory.clear();
         }
     }
@@ -177,6 +201,8 @@ impl Cache for MemoryStore {
     }
 
     fn remove_if(&self, f: &mut CachePredicate) -> RemoveIfResult {
+        #[cfg(memcrs_verif)]
+        crate::verif_hooks::yield_point("map.iter");
         let items: Vec<KeyType> = self
             .memory
             .iter()
@@ -190,6 +216,8 @@ impl Cache for MemoryStore {
     }
 
     fn len(&self) -> usize {
+        #[cfg(memcrs_verif)]
+        crate::verif_hooks::yield_point("map.len");
         self.memory.len()
     }
 
